@@ -98,10 +98,24 @@ def main():
     if a.keep:
         d = os.path.join(HERE, "seeded", a.sid)
         os.makedirs(d, exist_ok=True)
-        shutil.copy(a.patch, os.path.join(d, "patch.diff"))
-        shutil.copy(a.demo, os.path.join(d, "demo.py"))
+        if os.path.abspath(a.patch) != os.path.join(d, "patch.diff"):
+            shutil.copy(a.patch, os.path.join(d, "patch.diff"))
+        if os.path.abspath(a.demo) != os.path.join(d, "demo.py"):
+            shutil.copy(a.demo, os.path.join(d, "demo.py"))
+        prev = {}
+        if os.path.exists(os.path.join(d, "meta.json")):
+            prev = json.load(open(os.path.join(d, "meta.json")))
+        if a.no_suite and prev.get("confirmed"):
+            res.setdefault("suite_ok", prev["confirmed"].get("existing_suite_passes_with_change"))
+            res.setdefault("suite_tail", prev["confirmed"].get("suite_tail"))
+        if not a.needs and prev.get("needs_to_manifest"):
+            a.needs = prev["needs_to_manifest"]
+        history = prev.get("detection_history", [])
+        history.append({"verif_commit": sh("git -C %s rev-parse --short HEAD" % HERE)[1].strip(), "detected_by": res["detected_by"],
+                        "checks": {c: r["exit"] for c, r in res["checks"].items()}})
         meta = {
             "id": a.sid,
+            "detection_history": history,
             "breaks_property": a.prop,
             "needs_to_manifest": a.needs,
             "confirmed": {
